@@ -270,7 +270,7 @@ fn valid(kind: &str, input: &Value) -> bool {
                 && arr[5].as_u64().unwrap() <= 10_000
                 && arr[6].as_u64().unwrap() <= 10_000
         }
-        "big" => arr[0].as_u64().unwrap() <= 2 && arr[1].as_u64().unwrap() <= 400_000,
+        "big" => arr[0].as_u64().unwrap() <= 2 && arr[1].as_u64().unwrap() <= 1_100_000,
         "gen" => arr[0].as_u64().unwrap() <= 2 && arr[2].as_u64().unwrap() <= 10_000 && arr[5].as_u64().unwrap() <= 1,
         "rx" => arr[0].as_u64().unwrap() <= 2 && arr[2].as_u64().unwrap() <= 10_000,
         "g2" => arr[0].as_u64().unwrap() <= 2 && arr[2].as_u64().unwrap() <= 10_000 && arr[3].as_u64().unwrap() <= 10_000,
@@ -624,17 +624,29 @@ fn run(kind: &str, input: &Value) -> Value {
             let pattern = format!("{}/{}", base.display(), [format!("*.{ext}"), format!("*/*.{ext}"), format!("**/*.{ext}")][pat]);
             let pl = Pipeline::default();
             let mut pay = true;
-            let r = catch_unwind(AssertUnwindSafe(|| -> anyhow::Result<Vec<Rec>> {
-                match fmt {
-                    0 => read_jsonl::<Rec>(&pl, &pattern)?.collect_seq(),
-                    1 => read_csv::<Rec>(&pl, &pattern, h)?.collect_seq(),
-                    _ => read_parquet_streaming::<Rec>(&pl, &pattern, 1)?.collect_seq(),
-                }
+            let ck = Ck { dir: sc.p("ck"), pol: spread_pol(pseed), rec: pat == 1 };
+            // the glob readers load eagerly: the collection is an in-memory source; besides collect_seq
+            // it is run by the three other engines (par, seq+checkpoint, par+checkpoint)
+            let r = catch_unwind(AssertUnwindSafe(|| -> anyhow::Result<(Vec<Rec>, Vec<anyhow::Result<Vec<Rec>>>)> {
+                let src = match fmt {
+                    0 => read_jsonl::<Rec>(&pl, &pattern)?,
+                    1 => read_csv::<Rec>(&pl, &pattern, h)?,
+                    _ => read_parquet_streaming::<Rec>(&pl, &pattern, 1)?,
+                };
+                let v = src.clone().collect_seq()?;
+                Ok((v, (1..4).map(|e| engine_run(e, &pl, &src, 2, 3, &ck)).collect()))
             }));
             match r {
-                Ok(Ok(v)) => {
+                Ok(Ok((v, others))) => {
                     let ids = ids_of(&v, pseed, &mut pay);
-                    ok(json!([ids, pay]))
+                    let others: Vec<Value> = others
+                        .into_iter()
+                        .map(|o| match o {
+                            Ok(w) => json!(["ok", ids_of(&w, pseed, &mut pay)]),
+                            Err(_) => json!(["err"]),
+                        })
+                        .collect();
+                    ok(json!([ids, pay, others]))
                 }
                 Ok(Err(_)) => json!(["err", "read"]),
                 Err(_) => json!(["panic"]),
@@ -715,6 +727,20 @@ fn run(kind: &str, input: &Value) -> Value {
                     outs.push(path_outcome(|| read_jsonl_streaming::<Rec>(&pl, path, per)?.collect_par(Some(t), Some(p)), &show));
                 }
             }
+            // the parallel-written file also under the two checkpointing engines
+            let ck = Ck { dir: sc.p("ck"), pol: spread_pol(pseed), rec: via == 1 };
+            for e in [2, 3] {
+                outs.push(path_outcome(
+                    || {
+                        let pl = Pipeline::default();
+                        let src = source_fmt::<Rec>(usize::from(csv), &pl, &pb, h, per)?;
+                        engine_run(e, &pl, &src, t, p, &ck)
+                    },
+                    &show,
+                ));
+            }
+            // the checkpoint directory is not a leftover part file
+            let _ = std::fs::remove_dir_all(sc.p("ck"));
             ok(json!([ca, cb, outs, pay.get(), leftover]))
         }
         "ow" => {
@@ -1381,9 +1407,13 @@ fn generate(seed: u64, tier: Tier, em: &mut Emitter) {
                 v.push((1, n, 0, per));
             }
         }
+        // ironbeam's Parquet writer past the parquet crate's default max row-group size (1048576 rows):
+        // the file gets a second row group
+        v.push((2, 1_048_577, 0, 1));
+        v.push((2, 1_048_577, 0, 2));
         v
     } else {
-        vec![(2, 65_537, 0, 1), (2, 70_001, 20_000, 1000), (2, 65_536, 0, 1), (2, 70_001, 20_000, 2), (0, 70_001, 0, 65_536), (0, 70_001, 0, 1000), (1, 70_001, 0, 65_536), (1, 70_001, 0, 10_000)]
+        vec![(2, 1_048_577, 0, 1), (2, 65_537, 0, 1), (2, 70_001, 20_000, 1000), (2, 65_536, 0, 1), (2, 70_001, 20_000, 2), (0, 70_001, 0, 65_536), (0, 70_001, 0, 1000), (1, 70_001, 0, 65_536), (1, 70_001, 0, 10_000)]
     };
     for (fmt, n, rg, per) in bigs {
         let (t, p) = tp(&mut rng, 3);
@@ -1554,7 +1584,11 @@ fn generate(seed: u64, tier: Tier, em: &mut Emitter) {
                 pers.push(1);
             }
             if thorough {
-                pers.extend([n / 2 + 1, n, n + 1, 16, 64]);
+                pers.extend([n / 2 + 1, n, n + 1]);
+                // every range read re-scans the file from the top: small shards only for moderate n
+                if n <= 4097 {
+                    pers.extend([16, 64]);
+                }
             }
             pers.sort_unstable();
             pers.dedup();
